@@ -560,9 +560,17 @@ func TestVerifC19SetEdns0(t *testing.T) {
 		if opt == nil || opt != req.IsEdns0() {
 			goFail = "returned OPT is not the request's selected OPT"
 		}
-		fkey := ""
-		if goFail != "" && nopt >= 2 && leftovers {
-			fkey = "multi-opt-request-unstripped"
+		_ = leftovers
+		if goFail == "" && nopt >= 1 {
+			n := 0
+			for _, rr := range req.Extra {
+				if _, ok := rr.(*dns.OPT); ok {
+					n++
+				}
+			}
+			if n != 1 {
+				goFail = fmt.Sprintf("%d OPT records on the upstream-bound request", n)
+			}
 		}
 		k := "setedns0-stripped"
 		fw := false
@@ -584,10 +592,10 @@ func TestVerifC19SetEdns0(t *testing.T) {
 			adesc = append(adesc, rr.String())
 		}
 		tr.emit(map[string]any{"k": kpfx + k, "coq": fmt.Sprintf("CaseSetEdns0 %s %s %s %s", vC19Policy(p), vC19Addr(client), before, after),
-			"go_fail": goFail, "fkey": fkey, "nontrivial": len(snap) > 0 || nopt > 0,
+			"go_fail": goFail, "nontrivial": len(snap) > 0 || nopt > 0,
 			"desc": map[string]any{"policy": fmt.Sprintf("%+v", p), "client": client.String(), "extra_before": bdesc, "extra_after": adesc}})
 	}
-	// the witness of Properties.all_client_options_stripped_refuted, replayed on the real code
+	// regression for the former finding multi-opt-request-unstripped (fixed by d979d25): two OPT records, no policy
 	{
 		o1 := &dns.OPT{Hdr: dns.RR_Header{Name: ".", Rrtype: dns.TypeOPT}}
 		o1.Option = []dns.EDNS0{&dns.EDNS0_SUBNET{Code: dns.EDNS0SUBNET, Family: 1, SourceNetmask: 32, Address: net.IP{203, 0, 113, 77}},
